@@ -3696,10 +3696,11 @@ let k__overlap_split =
       ('s'::('t'::('a'::('r'::('t'::[])))))))),
       (seq ((SAssign (('t'::[]), (ERead1 ((S O),
         ('s'::('t'::('a'::('r'::('t'::[]))))), (EVar
-        ('k'::[])))))) :: ((SWhile ((S O), (ECmp (Lt0, (EBin (Add, (EVar
-        ('t'::[])), (EVar
+        ('k'::[])))))) :: ((SWhile ((S O), (EAnd ((ECmp (Lt0, (EBin (Add,
+        (EVar ('t'::[])), (EVar
         ('i'::('n'::('t'::('e'::('r'::('v'::('a'::('l'::('_'::('s'::('i'::('z'::('e'::[])))))))))))))))),
         (ERead1 ((S (S O)), ('e'::('n'::('d'::[]))), (EVar ('k'::[])))))),
+        (ECmp (Le, (EVar ('n'::[])), (EVar ('N'::[])))))),
         (seq ((SStore2 ((S (S (S O))),
           ('s'::('l'::('i'::('c'::('e'::('s'::[])))))), (EVar ('n'::[])),
           (EInt Z0), (EVar ('t'::[])))) :: ((SStore2 ((S (S (S (S O)))),
